@@ -123,14 +123,16 @@ Ltac finish :=
            intros i Hi Hni; frv i; try reflexivity
          | try lia ].
 
+Ltac split_alias Hpre :=
+  destruct (alias_cases _ _ _ Hpre) as [(-> & Hnd & Hb) | (He & Hd & Hnd & Hbx & Hbo & Hl)].
+Ltac run_leaf := exec; absorb; finish.
+Ltac case_ifs := repeat match goal with |- context [if ?c then _ else _] => destruct c end.
+
 Section L2.
 Context {T : Type} `{Num T} `{Sqrt T}.
 Notation heap := (heap T).
 Notation val := (list (list T)).
 
-Ltac split_alias Hpre :=
-  destruct (alias_cases _ _ _ Hpre) as [(-> & Hnd & Hb) | (He & Hd & Hnd & Hbx & Hbo & Hl)].
-Ltac run_leaf := exec; absorb; finish.
 
 Lemma l1_ok lam sigma g (h : heap) x out : pre h x out ->
   post h (call_l1 lam sigma g x out h) out (pure_l1 lam sigma g (get h x)).
@@ -146,17 +148,19 @@ Proof.
     rewrite ?ref_eqb_refl, ?He; run_leaf.
 Qed.
 
-Lemma l2sq_ok lam sigma g (h : heap) x out : pre h x out ->
+Lemma l2sq_ok lam sigma g (h : heap) x out :
+  match sigma, g with El sv, Some _ => length sv = length x | _, _ => True end -> pre h x out ->
   post h (call_l2sq lam sigma g x out h) out (pure_l2sq lam sigma g (get h x)).
 Proof.
-  intros Hpre; split_alias Hpre; unfold call_l2sq; destruct sigma as [s|sv], g as [gv|];
+  intros Hs Hpre; split_alias Hpre; unfold call_l2sq; destruct sigma as [s|sv], g as [gv|];
     rewrite ?ref_eqb_refl, ?He; run_leaf.
 Qed.
 
-Lemma ccl2sq_ok lam sigma g (h : heap) x out : pre h x out ->
+Lemma ccl2sq_ok lam sigma g (h : heap) x out :
+  match sigma, g with El sv, Some _ => length sv = length x | _, _ => True end -> pre h x out ->
   post h (call_ccl2sq lam sigma g x out h) out (pure_ccl2sq lam sigma g (get h x)).
 Proof.
-  intros Hpre; split_alias Hpre; unfold call_ccl2sq; destruct sigma as [s|sv], g as [gv|];
+  intros Hs Hpre; split_alias Hpre; unfold call_ccl2sq; destruct sigma as [s|sv], g as [gv|];
     rewrite ?ref_eqb_refl, ?He; run_leaf.
 Qed.
 
@@ -164,5 +168,37 @@ Lemma box_ok lo hi (h : heap) x out : pre h x out ->
   post h (call_box lo hi x out h) out (pure_box lo hi (get h x)).
 Proof.
   intros Hpre; split_alias Hpre; unfold call_box, pure_box; destruct lo, hi; run_leaf.
+Qed.
+
+
+Lemma l2_ok w e1p lam sigma g (h : heap) x out :
+  match g with Some gv => length gv = length x | None => True end -> pre h x out ->
+  post h (call_l2 w e1p lam sigma g x out h) out (pure_l2 w e1p lam sigma g (get h x)).
+Proof.
+  intros Hg Hpre; split_alias Hpre; unfold call_l2, pure_l2; destruct g as [gv|];
+    exec; absorb; rdv; case_ifs; finish.
+Qed.
+
+Lemma cckl_ok lam sigma g (h : heap) x out : pre h x out ->
+  post h (call_cckl lam sigma g x out h) out (pure_cckl lam sigma g (get h x)).
+Proof.
+  intros Hpre; split_alias Hpre; unfold call_cckl; rewrite ?ref_eqb_refl, ?He; destruct g as [gv|]; run_leaf.
+Qed.
+
+Lemma ccklce_ok lam W (h : heap) x out : (forall v, length (W v) = length v) -> pre h x out ->
+  post h (call_ccklce lam W x out h) out (lin one (- lam)%num (get h x) (W (get h x))).
+Proof.
+  intros HW Hpre; split_alias Hpre; unfold call_ccklce; exec.
+  all: absorb1.
+  all: match goal with |- context [st1 ?F ?a ?b ?hv] => is_var hv;
+         assert (W0 : wrote hv (st1 F a b hv) b (F (get hv a))) by (refine (st1_wrote F a b hv _ _); [sd | rewrite HW; sd]);
+         pose proof (st1_next F a b hv) as N0; set (h1 := st1 F a b hv) in *; clearbody h1; nxt end.
+  all: absorb; finish.
+Qed.
+
+Lemma projl1_ok radius (h : heap) x out : pre h x out ->
+  post h (proj_l1 radius x out h) out (pure_projl1 radius (get h x)).
+Proof.
+  intros Hpre; split_alias Hpre; unfold proj_l1, pure_projl1; exec; absorb; rdv; case_ifs; finish.
 Qed.
 End L2.
